@@ -1,7 +1,8 @@
 import GV.Proofs.Shift64
 
-/-! `$div64` (numeric.js:118-177): the normalisation loop doubles the divisor and terminates within the model's fuel
-    (helper lemmas for GV.Props.C06). -/
+/-! `$div64` (numeric.js:118-177): the normalisation loop doubles the divisor and terminates within the model's fuel; the second
+    loop is restoring division (invariant `loop_spec`); together they compute |x| / |y| and |x| % |y| (`magnitude_spec`); with the
+    sign reconstruction this is truncated division / remainder on `BitVec 64` (`div64_correct`). -/
 namespace GV.Proofs.Div64
 open GV.JSInt GV.Num64 GV.NumScheme GV.Spec.Num GV.Proofs.Num GV.Proofs.Num64 GV.Proofs.Shift64
 
@@ -54,4 +55,368 @@ theorem div64Norm_fuel (fuel : Nat) (xh xl yh yl : Int) (n : Nat) (hf : 0 < fuel
           simp only [Int.pow_zero] at *
           omega
     · simp
+/-- value of an unsigned pair -/
+def val (h l : Int) : Int := h * 4294967296 + l
+/-- canonical unsigned pair -/
+def UCan (h l : Int) : Prop := (0 ≤ h ∧ h < 4294967296) ∧ (0 ≤ l ∧ l < 4294967296)
+/-- the quotient accumulated in (`high`, `low`): `high` is an int32 (result of `|`), read modulo 2^32 -/
+def qval (st : DivSt) : Int := toUint32 st.high * 4294967296 + st.low
+
+theorem step_spec (st : DivSt) (hx : UCan st.xHigh st.xLow) (hy : UCan st.yHigh st.yLow)
+    (hl : 0 ≤ st.low ∧ st.low < 4294967296) (hq : 2 * qval st + 1 < 18446744073709551616) :
+    UCan (div64Step st).xHigh (div64Step st).xLow ∧ UCan (div64Step st).yHigh (div64Step st).yLow ∧
+    (0 ≤ (div64Step st).low ∧ (div64Step st).low < 4294967296) ∧
+    val (div64Step st).yHigh (div64Step st).yLow = val st.yHigh st.yLow / 2 ∧
+    (if val st.xHigh st.xLow ≥ val st.yHigh st.yLow
+      then val (div64Step st).xHigh (div64Step st).xLow = val st.xHigh st.xLow - val st.yHigh st.yLow ∧ qval (div64Step st) = 2 * qval st + 1
+      else val (div64Step st).xHigh (div64Step st).xLow = val st.xHigh st.xLow ∧ qval (div64Step st) = 2 * qval st) := by
+  obtain ⟨hxh, hxl⟩ := hx
+  obtain ⟨hyh, hyl⟩ := hy
+  have sc1 : shiftCount 1 = 1 := shiftCount_lit 1 (by omega)
+  have sc31 : shiftCount 31 = 31 := shiftCount_lit 31 (by omega)
+  have sc31' : shiftCount (32 - 1) = 31 := sc31
+  -- the new quotient words
+  have eH : toUint32 (bor (shl st.high 1) (shr st.low 31)) = (st.high % 2 ^ 31) * 2 ^ 1 + st.low / 2 ^ 31 := by
+    unfold shl shr; rw [sc1, sc31, toUint32_id hl]
+    exact bor_shifted st.high (st.low / 2 ^ 31) 1 (by omega) (by omega)
+  have eL : shr (shl st.low 1) 0 = (st.low * 2 ^ 1) % 4294967296 := by
+    rw [fix32u]; unfold shl; rw [sc1]; exact toUint32_mul st.low (2 ^ 1)
+  -- the halved divisor
+  have eYl : shr (bor (shr st.yLow 1) (shl st.yHigh (32 - 1))) 0 = (st.yHigh % 2 ^ 1) * 2 ^ (32 - 1) + st.yLow / 2 ^ 1 := by
+    rw [fix32u]; unfold shl shr; rw [sc1, sc31', toUint32_id hyl]
+    exact shr_low st.yHigh st.yLow 1 (by omega) (by omega) hyl
+  have eYh : shr st.yHigh 1 = st.yHigh / 2 ^ 1 := by
+    unfold shr; rw [sc1, toUint32_id hyh]
+  unfold div64Step
+  simp only [eL, eYl, eYh]
+  generalize bor (shl st.high 1) (shr st.low 31) = H at *
+  unfold qval val at *
+  simp only []
+  have cmp : (st.xHigh > st.yHigh ∨ (st.xHigh = st.yHigh ∧ st.xLow ≥ st.yLow)) ↔
+      st.xHigh * 4294967296 + st.xLow ≥ st.yHigh * 4294967296 + st.yLow := by omega
+  by_cases hc : st.xHigh > st.yHigh ∨ (st.xHigh = st.yHigh ∧ st.xLow ≥ st.yLow)
+  · have hc' := cmp.1 hc
+    rw [if_pos hc, if_pos hc']
+    simp only [UCan]
+    unfold toUint32 at *
+    simp only [Nat.reduceSub, Int.reducePow, Int.pow_one] at *
+    refine ⟨?_, ?_, ?_, ?_, ?_, ?_⟩ <;> (repeat' split) <;> first | omega | exact True.intro
+  · have hc' : ¬ (st.xHigh * 4294967296 + st.xLow ≥ st.yHigh * 4294967296 + st.yLow) := fun h => hc (cmp.2 h)
+    rw [if_neg hc, if_neg hc']
+    simp only [UCan]
+    unfold toUint32 at *
+    simp only [Nat.reduceSub, Int.reducePow, Int.pow_one] at *
+    refine ⟨?_, ?_, ?_, ?_, ?_, ?_⟩ <;> first | omega | exact True.intro
+
+/-- the second loop of `$div64` (numeric.js:154-171): restoring division. Before the remaining `m` iterations
+    `X0 = q * (Yb * 2^m) + x`, `x < Yb * 2^m`, and the divisor register holds `Yb * 2^(m-1)`; after them `X0 = q * Yb + x`, `x < Yb`. -/
+theorem loop_spec (m : Nat) : ∀ (st : DivSt) (X0 Yb : Int), 0 < Yb → X0 < 18446744073709551616 →
+    UCan st.xHigh st.xLow → UCan st.yHigh st.yLow → (0 ≤ st.low ∧ st.low < 4294967296) →
+    X0 = qval st * (Yb * 2 ^ m) + val st.xHigh st.xLow → 0 ≤ qval st → val st.xHigh st.xLow < Yb * 2 ^ m →
+    (1 ≤ m → val st.yHigh st.yLow = Yb * 2 ^ (m - 1)) →
+    X0 = qval (div64Loop m st) * Yb + val (div64Loop m st).xHigh (div64Loop m st).xLow ∧
+    val (div64Loop m st).xHigh (div64Loop m st).xLow < Yb ∧ 0 ≤ qval (div64Loop m st) ∧
+    UCan (div64Loop m st).xHigh (div64Loop m st).xLow ∧ (0 ≤ (div64Loop m st).low ∧ (div64Loop m st).low < 4294967296) := by
+  induction m with
+  | zero =>
+    intro st X0 Yb hYb hX0 hx hy hl hinv hq0 hlt _
+    simp only [div64Loop, Int.pow_zero, Int.mul_one] at *
+    exact ⟨hinv, hlt, hq0, hx, hl⟩
+  | succ m ih =>
+    intro st X0 Yb hYb hX0 hx hy hl hinv hq0 hlt hY
+    have hYv : val st.yHigh st.yLow = Yb * 2 ^ m := by simpa using hY (by omega)
+    have hpow : Yb * 2 ^ (m + 1) = (Yb * 2 ^ m) * 2 := by rw [Int.pow_succ, Int.mul_assoc]
+    have hP : 0 < Yb * 2 ^ m := Int.mul_pos hYb (two_pow_pos m)
+    rw [hpow] at hinv hlt
+    have hxnn : 0 ≤ val st.xHigh st.xLow := by unfold val; have := hx.1; have := hx.2; omega
+    generalize hPdef : Yb * 2 ^ m = P at *
+    -- 2 * q ≤ X0, so doubling the quotient cannot overflow
+    have h2q : qval st * 2 ≤ qval st * (P * 2) := Int.mul_le_mul_of_nonneg_left (by omega) hq0
+    have hq : 2 * qval st + 1 < 18446744073709551616 := by omega
+    have sp := step_spec st hx hy hl hq
+    obtain ⟨sx, sy, sl, syv, sb⟩ := sp
+    simp only [div64Loop]
+    rw [hYv] at syv sb
+    apply ih (div64Step st) X0 Yb hYb hX0 sx sy sl
+    · -- the invariant after the step
+      rw [hPdef]
+      by_cases hc : val st.xHigh st.xLow ≥ P
+      · rw [if_pos hc] at sb; rw [sb.1, sb.2]
+        have : qval st * (P * 2) = (2 * qval st + 1) * P - P := by grind
+        omega
+      · rw [if_neg hc] at sb; rw [sb.1, sb.2]
+        have : qval st * (P * 2) = 2 * qval st * P := by grind
+        omega
+    · by_cases hc : val st.xHigh st.xLow ≥ P
+      · rw [if_pos hc] at sb; omega
+      · rw [if_neg hc] at sb; omega
+    · rw [hPdef]
+      by_cases hc : val st.xHigh st.xLow ≥ P
+      · rw [if_pos hc] at sb; omega
+      · rw [if_neg hc] at sb; omega
+    · intro hm
+      rw [syv]
+      have : m = (m - 1) + 1 := by omega
+      rw [← hPdef]
+      conv => lhs; rw [this, Int.pow_succ, ← Int.mul_assoc]
+      exact Int.mul_ediv_cancel _ (by omega)
+
+/-- the first loop of `$div64` (numeric.js:148-152): it stops within the fuel, having doubled the divisor `k` times without
+    overflow, and then `x < 2 * y'` -/
+theorem norm_spec (fuel : Nat) : ∀ (xh xl yh yl : Int) (n : Nat), 0 < fuel → UCan xh xl → UCan yh yl → 1 ≤ val yh yl →
+    (2 : Int) ^ (64 - fuel) ≤ val yh yl →
+    ∃ k : Nat, (div64Norm fuel xh xl yh yl n).2.2.1 = n + k ∧
+      val (div64Norm fuel xh xl yh yl n).1 (div64Norm fuel xh xl yh yl n).2.1 = val yh yl * 2 ^ k ∧
+      UCan (div64Norm fuel xh xl yh yl n).1 (div64Norm fuel xh xl yh yl n).2.1 ∧
+      val xh xl < 2 * val (div64Norm fuel xh xl yh yl n).1 (div64Norm fuel xh xl yh yl n).2.1 := by
+  induction fuel with
+  | zero => intro _ _ _ _ _ h; omega
+  | succ f ih =>
+    intro xh xl yh yl n _ hx hy h1 hv
+    unfold div64Norm
+    by_cases hc : yh < 2147483648 ∧ (xh > yh ∨ (xh = yh ∧ xl > yl))
+    · rw [if_pos hc]
+      have st := norm_step yh yl ⟨hy.1.1, hc.1⟩ hy.2
+      simp only at st
+      by_cases hf0 : f = 0
+      · subst hf0
+        have : (2 : Int) ^ (64 - (0 + 1)) = 9223372036854775808 := by decide
+        rw [this] at hv; unfold val at hv; have := hy.2; omega
+      · have hv' : (2 : Int) ^ (64 - f) ≤ val (shr (bor (shl yh 1) (shr yl 31)) 0) (shr (shl yl 1) 0) := by
+          unfold val at *
+          rw [st.1]
+          by_cases hbig : f + 1 ≤ 64
+          · have e : (2 : Int) ^ (64 - f) = 2 * 2 ^ (64 - (f + 1)) := by
+              have : 64 - f = (64 - (f + 1)) + 1 := by omega
+              rw [this, Int.pow_succ]; omega
+            omega
+          · have h1' : 64 - f = 0 := by omega
+            rw [h1']; simp only [Int.pow_zero]; omega
+        have h1' : 1 ≤ val (shr (bor (shl yh 1) (shr yl 31)) 0) (shr (shl yl 1) 0) := by
+          unfold val at *; rw [st.1]; omega
+        obtain ⟨k, e1, e2, e3, e4⟩ := ih xh xl _ _ (n + 1) (by omega) hx ⟨st.2.1, st.2.2⟩ h1' hv'
+        refine ⟨k + 1, by omega, ?_, e3, e4⟩
+        rw [e2]
+        unfold val at *
+        rw [st.1, Int.pow_succ]
+        generalize (2 : Int) ^ k = pk
+        grind
+    · rw [if_neg hc]
+      refine ⟨0, by simp, by simp, hy, ?_⟩
+      simp only
+      unfold val at *
+      have := hx.1; have := hx.2; have := hy.1; have := hy.2
+      omega
+
+/-- the state after both loops of `$div64`, started on the magnitudes (xh, xl), (yh, yl) -/
+def afterLoops (xh xl yh yl : Int) : DivSt :=
+  let nr := div64Norm 64 xh xl yh yl 0
+  div64Loop (nr.2.2.1 + 1) ⟨xh, xl, nr.1, nr.2.1, 0, 0⟩
+
+/-- both loops together, on magnitudes: the quotient register holds `|x| / |y|`, the dividend register `|x| % |y|` -/
+theorem magnitude_spec (xh xl yh yl : Int) (hx : UCan xh xl) (hy : UCan yh yl) (hy1 : 1 ≤ val yh yl) :
+    qval (afterLoops xh xl yh yl) = val xh xl / val yh yl ∧
+    val (afterLoops xh xl yh yl).xHigh (afterLoops xh xl yh yl).xLow = val xh xl % val yh yl ∧
+    UCan (afterLoops xh xl yh yl).xHigh (afterLoops xh xl yh yl).xLow ∧
+    (0 ≤ (afterLoops xh xl yh yl).low ∧ (afterLoops xh xl yh yl).low < 4294967296) := by
+  obtain ⟨k, e1, e2, e3, e4⟩ := norm_spec 64 xh xl yh yl 0 (by omega) hx hy hy1 (by simpa using hy1)
+  have hX0 : val xh xl < 18446744073709551616 := by unfold val; have := hx.1; have := hx.2; omega
+  have hX00 : 0 ≤ val xh xl := by unfold val; have := hx.1; have := hx.2; omega
+  unfold afterLoops
+  simp only []
+  generalize div64Norm 64 xh xl yh yl 0 = nr at *
+  have hn : nr.2.2.1 + 1 = k + 1 := by omega
+  have hq0 : qval (⟨xh, xl, nr.1, nr.2.1, 0, 0⟩ : DivSt) = 0 := by simp [qval, toUint32]
+  have key := loop_spec (k + 1) ⟨xh, xl, nr.1, nr.2.1, 0, 0⟩ (val xh xl) (val yh yl) (by omega) hX0 hx e3 (by simp)
+    (by rw [hq0]; simp) (by rw [hq0]; omega)
+    (by show val xh xl < val yh yl * 2 ^ (k + 1)
+        rw [Int.pow_succ, ← Int.mul_assoc]
+        omega)
+    (by intro _; show val nr.1 nr.2.1 = val yh yl * 2 ^ (k + 1 - 1); simpa using e2)
+  rw [← hn] at key
+  generalize div64Loop (nr.2.2.1 + 1) ⟨xh, xl, nr.1, nr.2.1, 0, 0⟩ = st at *
+  obtain ⟨k1, k2, k3, k4, k5⟩ := key
+  have hr0 : 0 ≤ val st.xHigh st.xLow := by unfold val; have := k4.1; have := k4.2; omega
+  have := (Int.ediv_emod_unique (a := val xh xl) (b := val yh yl) (q := qval st) (r := val st.xHigh st.xLow) (by omega)).2
+    ⟨by rw [Int.mul_comm]; omega, hr0, k2⟩
+  exact ⟨this.1.symm, this.2.symm, k4, k5⟩
+
+/-! #### signs -/
+
+theorem magnitude_spec' (h l : Int) (hh : -2147483648 ≤ h ∧ h < 4294967296) (hl : 0 ≤ l ∧ l < 4294967296) :
+    UCan (magnitude h l).1 (magnitude h l).2 ∧
+    val (magnitude h l).1 (magnitude h l).2 = (if h < 0 then -(h * 4294967296 + l) else h * 4294967296 + l) := by
+  unfold magnitude UCan val
+  by_cases h1 : h < 0
+  · by_cases h2 : l ≠ 0
+    · simp only [h1, h2, if_true, ne_eq, not_false_eq_true]; omega
+    · simp only [h1, h2, if_true, if_false]; omega
+  · simp only [h1, if_false]
+    exact ⟨⟨⟨by omega, by omega⟩, hl⟩, True.intro⟩
+
+theorem tdiv_abs (X Y : Int) :
+    X.tdiv Y = (if X < 0 then -1 else 1) * (if Y < 0 then -1 else 1) * ((if X < 0 then -X else X) / (if Y < 0 then -Y else Y)) := by
+  by_cases hX : X < 0 <;> by_cases hY : Y < 0 <;> simp only [hX, hY, if_true, if_false]
+  · have e1 : X.tdiv Y = (- -X).tdiv (- -Y) := by rw [Int.neg_neg, Int.neg_neg]
+    rw [e1, Int.neg_tdiv, Int.tdiv_neg, Int.tdiv_eq_ediv_of_nonneg (by omega)]; omega
+  · have e1 : X.tdiv Y = (- -X).tdiv Y := by rw [Int.neg_neg]
+    rw [e1, Int.neg_tdiv, Int.tdiv_eq_ediv_of_nonneg (by omega)]; omega
+  · have e1 : X.tdiv Y = X.tdiv (- -Y) := by rw [Int.neg_neg]
+    rw [e1, Int.tdiv_neg, Int.tdiv_eq_ediv_of_nonneg (by omega)]; omega
+  · rw [Int.tdiv_eq_ediv_of_nonneg (by omega)]; omega
+
+theorem tmod_abs (X Y : Int) :
+    X.tmod Y = (if X < 0 then -1 else 1) * ((if X < 0 then -X else X) % (if Y < 0 then -Y else Y)) := by
+  by_cases hX : X < 0 <;> by_cases hY : Y < 0 <;> simp only [hX, hY, if_true, if_false]
+  · have e1 : X.tmod Y = (- -X).tmod Y := by rw [Int.neg_neg]
+    rw [e1, Int.neg_tmod, Int.tmod_eq_emod_of_nonneg (by omega), Int.emod_neg]; omega
+  · have e1 : X.tmod Y = (- -X).tmod Y := by rw [Int.neg_neg]
+    rw [e1, Int.neg_tmod, Int.tmod_eq_emod_of_nonneg (by omega)]; omega
+  · rw [Int.tmod_eq_emod_of_nonneg (by omega), Int.emod_neg]; omega
+  · rw [Int.tmod_eq_emod_of_nonneg (by omega)]; omega
+
+/-! #### the full `$div64` -/
+
+theorem toInt_toBV (x : W64) (hx : Canon true x) : (toBV x).toInt = flatten64 x := by
+  have hc := hx.1; simp only [if_true] at hc
+  have hl := hx.2
+  simp only [toBV, flatten64, BitVec.toInt_ofInt, Int.bmod_def, Nat.reducePow, Int.cast_ofNat_Int]; omega
+
+theorem toNat_toBV (x : W64) (hx : Canon false x) : ((toBV x).toNat : Int) = flatten64 x := by
+  have hc := hx.1; simp only [Bool.false_eq_true, if_false] at hc
+  have hl := hx.2
+  simp only [toBV, BitVec.toNat_ofInt, Nat.reducePow, Int.cast_ofNat_Int]
+  rw [Int.toNat_of_nonneg (Int.emod_nonneg _ (by omega))]
+  unfold flatten64; omega
+
+theorem div64_eq (s : Bool) (x y : W64) (r : Bool) (h0 : ¬ (y.high = 0 ∧ y.low = 0)) :
+    div64 s x y r =
+      (if r then some (mk64 s ((afterLoops (magnitude x.high x.low).1 (magnitude x.high x.low).2 (magnitude y.high y.low).1 (magnitude y.high y.low).2).xHigh * (if x.high < 0 then -1 else 1))
+                          ((afterLoops (magnitude x.high x.low).1 (magnitude x.high x.low).2 (magnitude y.high y.low).1 (magnitude y.high y.low).2).xLow * (if x.high < 0 then -1 else 1)))
+       else some (mk64 s ((afterLoops (magnitude x.high x.low).1 (magnitude x.high x.low).2 (magnitude y.high y.low).1 (magnitude y.high y.low).2).high * (if y.high < 0 then (if x.high < 0 then -1 else 1) * -1 else (if x.high < 0 then -1 else 1)))
+                          ((afterLoops (magnitude x.high x.low).1 (magnitude x.high x.low).2 (magnitude y.high y.low).1 (magnitude y.high y.low).2).low * (if y.high < 0 then (if x.high < 0 then -1 else 1) * -1 else (if x.high < 0 then -1 else 1))))) := by
+  unfold div64 afterLoops
+  rw [if_neg h0]
+
+theorem toBV_eq_zero' (s : Bool) (y : W64) (hy : Canon s y) : toBV y = 0 ↔ (y.high = 0 ∧ y.low = 0) := by
+  constructor
+  · intro h
+    cases s
+    · have := toNat_toBV y hy; rw [h] at this; simp at this
+      have hc := hy.1; simp only [Bool.false_eq_true, if_false] at hc; have := hy.2; unfold flatten64 at *; omega
+    · have := toInt_toBV y hy; rw [h] at this; simp at this
+      have hc := hy.1; simp only [if_true] at hc; have := hy.2; unfold flatten64 at *; omega
+  · intro h; simp only [toBV, flatten64, h.1, h.2]; rfl
+
+/-- the word pair `(H, L)` with `H` read modulo 2^32, multiplied by a sign, denotes `sg * value` modulo 2^64 -/
+theorem toBV_signed_pair (s : Bool) (H L sg : Int) (hs : sg = 1 ∨ sg = -1) :
+    toBV (mk64 s (H * sg) (L * sg)) = BitVec.ofInt 64 (sg * (toUint32 H * 4294967296 + L)) := by
+  rw [toBV_mk64]; apply ofInt64_congr
+  unfold toUint32
+  rcases hs with h | h <;> subst h <;> omega
+
+theorem div64_correct (s : Bool) (x y : W64) (r : Bool) (hx : Canon s x) (hy : Canon s y) :
+    (div64 s x y r).map toBV = specBin s (if r then .rem else .quo) (toBV x) (toBV y) := by
+  have hz := toBV_eq_zero' s y hy
+  by_cases h0 : y.high = 0 ∧ y.low = 0
+  · have hb : toBV y = 0 := hz.2 h0
+    cases r <;> simp [div64, h0, specBin, hb]
+  have hb : ¬ toBV y = 0 := fun h => h0 (hz.1 h)
+  rw [div64_eq s x y r h0]
+  -- ranges of the operands
+  have hxl := hx.2; have hyl := hy.2
+  have hxh : -2147483648 ≤ x.high ∧ x.high < 4294967296 := by
+    have := hx.1; cases s <;> simp only [if_true, if_false, Bool.false_eq_true] at this <;> omega
+  have hyh : -2147483648 ≤ y.high ∧ y.high < 4294967296 := by
+    have := hy.1; cases s <;> simp only [if_true, if_false, Bool.false_eq_true] at this <;> omega
+  obtain ⟨mxc, mxv⟩ := magnitude_spec' x.high x.low hxh hxl
+  obtain ⟨myc, myv⟩ := magnitude_spec' y.high y.low hyh hyl
+  have hy1 : 1 ≤ val (magnitude y.high y.low).1 (magnitude y.high y.low).2 := by rw [myv]; split <;> omega
+  obtain ⟨q1, q2, q3, q4⟩ := magnitude_spec _ _ _ _ mxc myc hy1
+  rw [mxv, myv] at q1 q2
+  generalize afterLoops (magnitude x.high x.low).1 (magnitude x.high x.low).2 (magnitude y.high y.low).1 (magnitude y.high y.low).2 = st at *
+  -- signs of the values
+  have hX : (x.high < 0) ↔ flatten64 x < 0 := by unfold flatten64; omega
+  have hY : (y.high < 0) ↔ flatten64 y < 0 := by unfold flatten64; omega
+  have eX : x.high * 4294967296 + x.low = flatten64 x := rfl
+  have eY : y.high * 4294967296 + y.low = flatten64 y := rfl
+  rw [eX, eY] at q1 q2
+  simp only [hX, hY] at q1 q2 ⊢
+  generalize hXv : flatten64 x = X at *
+  generalize hYv : flatten64 y = Y at *
+  cases r
+  · -- quotient
+    simp only [Bool.false_eq_true, if_false, Option.map, specBin, hb]
+    congr 1
+    rw [toBV_signed_pair s st.high st.low _ (by split <;> split <;> omega)]
+    have hq : toUint32 st.high * 4294967296 + st.low = (if X < 0 then -X else X) / (if Y < 0 then -Y else Y) := q1
+    rw [hq]
+    have htd : (if Y < 0 then (if X < 0 then (-1 : Int) else 1) * -1 else (if X < 0 then -1 else 1)) *
+        ((if X < 0 then -X else X) / (if Y < 0 then -Y else Y)) = X.tdiv Y := by
+      rw [tdiv_abs X Y]; split <;> split <;> omega
+    rw [htd]
+    cases s
+    · -- unsigned: X, Y ≥ 0
+      simp only [Bool.false_eq_true, if_false]
+      have hXn := toNat_toBV x hx; have hYn := toNat_toBV y hy
+      rw [hXv] at hXn; rw [hYv] at hYn
+      have hX0 : 0 ≤ X := by omega
+      apply BitVec.eq_of_toNat_eq; apply Int.ofNat_inj.1
+      rw [BitVec.toNat_udiv, Int.natCast_ediv, hXn, hYn, BitVec.toNat_ofInt, Int.tdiv_eq_ediv_of_nonneg hX0]
+      have h1 : 0 ≤ X / Y := Int.ediv_nonneg hX0 (by omega)
+      have h2 : X / Y ≤ X := Int.ediv_le_self Y hX0
+      have hXlt : X < 18446744073709551616 := by
+        have := (toBV x).isLt; omega
+      rw [Int.toNat_of_nonneg (Int.emod_nonneg _ (by decide))]
+      simp only [Nat.reducePow, Int.cast_ofNat_Int]
+      rw [Int.emod_eq_of_lt h1 (by omega)]
+    · simp only [if_true]
+      apply BitVec.eq_of_toInt_eq
+      rw [BitVec.toInt_sdiv, toInt_toBV x hx, toInt_toBV y hy, hXv, hYv, BitVec.toInt_ofInt]
+  · -- remainder
+    simp only [if_true, Option.map, specBin, hb, if_false]
+    congr 1
+    have e0 : toBV (mk64 s (st.xHigh * (if X < 0 then -1 else 1)) (st.xLow * (if X < 0 then -1 else 1))) =
+        BitVec.ofInt 64 ((if X < 0 then -1 else 1) * val st.xHigh st.xLow) := by
+      rw [toBV_mk64]; apply ofInt64_congr; unfold val; split <;> omega
+    rw [e0, q2]
+    have htm : (if X < 0 then (-1 : Int) else 1) * ((if X < 0 then -X else X) % (if Y < 0 then -Y else Y)) = X.tmod Y :=
+      (tmod_abs X Y).symm
+    rw [htm]
+    cases s
+    · simp only [Bool.false_eq_true, if_false]
+      have hXn := toNat_toBV x hx; have hYn := toNat_toBV y hy
+      rw [hXv] at hXn; rw [hYv] at hYn
+      have hX0 : 0 ≤ X := by omega
+      have hY0 : 0 < Y := by
+        have : Y ≠ 0 := by
+          intro h; apply h0; unfold flatten64 at hYv
+          have := hy.1; simp only [Bool.false_eq_true, if_false] at this; omega
+        omega
+      apply BitVec.eq_of_toNat_eq; apply Int.ofNat_inj.1
+      rw [BitVec.toNat_umod, Int.natCast_emod, hXn, hYn, BitVec.toNat_ofInt, Int.tmod_eq_emod_of_nonneg hX0]
+      have h1 : 0 ≤ X % Y := Int.emod_nonneg _ (by omega)
+      have h2 : X % Y < Y := Int.emod_lt_of_pos _ hY0
+      have hYlt : Y < 18446744073709551616 := by have := (toBV y).isLt; omega
+      rw [Int.toNat_of_nonneg (Int.emod_nonneg _ (by decide))]
+      simp only [Nat.reducePow, Int.cast_ofNat_Int]
+      rw [Int.emod_eq_of_lt h1 (by omega)]
+    · simp only [if_true]
+      apply BitVec.eq_of_toInt_eq
+      rw [BitVec.toInt_srem, toInt_toBV x hx, toInt_toBV y hy, hXv, hYv, BitVec.toInt_ofInt]
+      -- |X tmod Y| ≤ |X| ≤ 2^63, and = 2^63 is impossible
+      have h1 := Int.natAbs_tmod X Y
+      have h2 : (X.tmod Y).natAbs ≤ X.natAbs := by rw [h1]; exact Nat.mod_le _ _
+      have hXr : -9223372036854775808 ≤ X ∧ X < 9223372036854775808 := by
+        rw [← hXv]; have := hx.1; simp only [if_true] at this; unfold flatten64; omega
+      have h3 : 0 ≤ X → 0 ≤ X.tmod Y := fun h => Int.tmod_nonneg Y h
+      have h4 : X ≤ 0 → X.tmod Y ≤ 0 := by
+        intro h
+        have := Int.tmod_nonneg Y (show 0 ≤ -X by omega)
+        rw [Int.neg_tmod] at this; omega
+      have h5 : X.tmod Y ≠ -9223372036854775808 ∨ True := Or.inr trivial
+      simp only [Int.bmod_def, Nat.reducePow, Int.cast_ofNat_Int]
+      have hlt : (X.tmod Y).natAbs < 9223372036854775808 ∨ X.tmod Y = -9223372036854775808 := by omega
+      omega
+
 end GV.Proofs.Div64
